@@ -353,6 +353,7 @@ let judge_listener ins outs : verdict =
   let ops = ref [] in
   let last_rejected = ref false in
   let accepted = ref 0 and nacc = ref 0 in
+  let failing : int list ref = ref [] in
   let rec go ins outs =
     match ins, outs with
     | [], [lk; _rej] when starts "leak" lk ->
@@ -389,11 +390,13 @@ let judge_listener ins outs : verdict =
                 else raise (Dis ("defaults want=" ^ want ^ " got=" ^ got)))
          | _ -> raise (Dis ("bad-post-out:" ^ o)));
         go rest' outs'
-    | "a" :: rest, o :: outs' ->
+    | ("a" | "A" | "E" as acc) :: rest, o :: outs' ->
         let (l', out) = accept !l in
         ops := LAccept :: !ops; incr nacc;
         (match out with
-         | OConn id -> if o <> "c" ^ string_of_int (int_of_nat id) then raise (Dis "accept-id")
+         | OConn id ->
+             if o <> "c" ^ string_of_int (int_of_nat id) then raise (Dis "accept-id");
+             if acc <> "a" then failing := int_of_nat id :: !failing
          | _ -> raise (Dis "accept"));
         l := l'; go rest outs'
     | "q" :: rest, o :: outs' ->
@@ -403,10 +406,13 @@ let judge_listener ins outs : verdict =
            else raise (Dis ("active-map want=" ^ want ^ " got=" ^ o)));
         go rest outs'
     | tok :: rest, o :: outs' when tok.[0] = 'x' ->
-        let id = nat_of_int (ios (tl1 tok)) in
-        let (l', _) = close_conn !l id in
-        ops := LClose id :: !ops;
+        let idi = ios (tl1 tok) in
+        let id = nat_of_int idi in
+        let uok = not (List.mem idi !failing) in     (* what the wrapped conn's Close returns *)
+        let (l', _) = close_conn !l id uok in
+        ops := LClose (id, uok) :: !ops;
         l := l'; go rest outs'
+    | tok :: rest, "w" :: outs' when tok.[0] = 'w' -> go rest outs'
     | tok :: rest, o :: outs' when tok.[0] = 'v' ->
         (match split ':' (tl1 tok) with
          | [id; rg] ->
@@ -550,14 +556,20 @@ let judge_keepalive ins outs : verdict =
        | c :: _ -> raise (Fail ("only_matching", "CONNECT on a fresh shaped connection answered " ^ c))
        | [] -> raise (Dis "keepalive-out-length"))
     else outs in
+  let aborted = ref false in
+  let how = if List.mem "end:rst" items || List.exists (fun t -> starts "qz:" t) items then "reset by the client" else "closed" in
   let rec go items outs =
     match items, outs with
     | [], [gl; m] when starts "gl" gl ->
         let left = ios (tl1 (tl1 gl)) in
         if left > 0 then
-          raise (Fail ("close_releases", Printf.sprintf "%d goroutines created for the client connection (mode %s) are still alive after it was closed" left mode));
+          raise (Fail ("close_releases", Printf.sprintf "%d goroutines created for the client connection (mode %s) are still alive after it was %s" left mode how));
         let want = pr_active active (fun k -> List.assoc_opt k !shared) in
-        if want <> m then raise (Dis ("final-actions want=" ^ want ^ " got=" ^ m))
+        (* after an abort in the middle of a response how far the proxy got is not determined *)
+        if want <> m && not !aborted then raise (Dis ("final-actions want=" ^ want ^ " got=" ^ m))
+    | "end:rst" :: items', _ -> go items' outs
+    | qz :: items', "skip" :: outs' when starts "qz:" qz -> go items' outs'
+    | qz :: items', z :: outs' when starts "qz:" qz && z.[0] = 'z' -> aborted := true; dead := true; go items' outs'
     | _ :: items', "skip" :: outs' ->
         if not !dead then raise (Dis "item-skipped-on-a-live-connection");
         go items' outs'
